@@ -12,6 +12,8 @@
   `raw_range_fails`: concrete one-variable model).  On valid worlds the two environments coincide (`fscmEnv_pr_valid`).
 -/
 import Y0.Lemmas.FscmEnv
+import Mathlib.Tactic.NormNum.Inv
+import Mathlib.Tactic.NormNum.Ineq
 
 namespace Y0
 namespace Fscm
@@ -178,6 +180,48 @@ theorem fscmEnvRaw_pr_range (hM : WellFormed M card) (pop : Option Name) (a : At
   have hne : ¬ solve M u a.dos a.name = a.val := by
     intro e; rw [e] at this; exact absurd this (Nat.not_lt.mpr h)
   simp [hne]
+
+/-- the one-variable model `X := u₀`, `u₀` a fair coin -/
+def coin : Model :=
+  { order := [0], noise := [[1/2, 1/2]], pa := fun _ => [], lat := fun _ => [0], f := fun _ _ l => l.headD 0 % 2 }
+
+theorem coin_wellFormed : WellFormed coin (fun _ => 2) := by
+  refine ⟨fun _ => by decide, fun _ _ _ => Nat.mod_lt _ (by decide), ?_, ?_⟩
+  · intro pmf hp p hpp
+    simp only [coin, List.mem_singleton] at hp
+    subst hp
+    simp only [List.mem_cons, List.not_mem_nil, or_false, or_self] at hpp
+    subst hpp
+    norm_num
+  · intro pmf hp
+    simp only [coin, List.mem_singleton] at hp
+    subst hp
+    norm_num
+
+/-- without the normal form `pr_dos_perm` fails on a two-valued world: `P(X_{x=1,x=0} = 0) = 0 ≠ 1 = P(X_{x=0,x=1} = 0)` -/
+theorem raw_dos_perm_fails :
+    (coin.fscmEnvRaw (fun _ => 2)).pr none [⟨0, [(0, 1), (0, 0)], 0⟩] ≠
+      (coin.fscmEnvRaw (fun _ => 2)).pr none [⟨0, [(0, 0), (0, 1)], 0⟩] := by
+  simp [Model.fscmEnvRaw, prob, space, coin, atomConjRaw, holds, solve, step, forced, update, List.zipIdx]
+  norm_num
+
+/-- without the normal form `pr_marg` fails on an out-of-range binding: `Σ_{k<2} P(X_{x=7} = k) = 0 ≠ 1` -/
+theorem raw_marg_fails :
+    sumRange 2 (fun k => (coin.fscmEnvRaw (fun _ => 2)).pr none [⟨0, [(0, 7)], k⟩]) ≠
+      (coin.fscmEnvRaw (fun _ => 2)).pr none [] := by
+  simp [sumRange, List.range_succ, Model.fscmEnvRaw, prob, space, coin, atomConjRaw, holds, solve, step, forced, update,
+    List.zipIdx]
+  norm_num
+
+/-- ... and `pr_range`: `P(X_{x=7} = 7) = 1` -/
+theorem raw_range_fails : (coin.fscmEnvRaw (fun _ => 2)).pr none [⟨0, [(0, 7)], 7⟩] ≠ 0 := by
+  simp [Model.fscmEnvRaw, prob, space, coin, atomConjRaw, holds, solve, step, forced, update, List.zipIdx]
+  norm_num
+
+/-- with the normal form the three conjunctions above get the values the laws demand -/
+example : (coin.fscmEnv (fun _ => 2)).pr none [⟨0, [(0, 1), (0, 0)], 0⟩] =
+    (coin.fscmEnv (fun _ => 2)).pr none [⟨0, [(0, 0), (0, 1)], 0⟩] :=
+  (fscmEnv_probFamily coin_wellFormed).pr_dos_perm none ⟨0, [(0, 0), (0, 1)], 0⟩ _ [] (List.Perm.swap _ _ _)
 
 end raw
 
